@@ -47,10 +47,19 @@ def meta_of(f, with_data):
 
 
 def lazy_data(f):
+    """per channel: the full lazy read and the partial ones (window, slice, first / last element, chunk stream) — the partial reads go
+    through the offset index and the per-segment chunk arithmetic, which take what they know from the index file when one is used"""
     out = {}
     for c in cl.channels_of(f):
-        r = cl.call(lambda: c.read_data(scaled=False))
-        out[c.path] = canon.norm(cl.canon_out(r[1])) if r[0] == "ok" else ("raised", r[2])
+        n = len(c)
+        ent = []
+        for fn in (lambda: cl.canon_out(c.read_data(scaled=False)), lambda: cl.canon_out(c.read_data(1, 2, scaled=False)),
+                   lambda: canon.value_bytes(c[max(0, n - 3):n]) if c.data_type is None or c.data_type.enum_value != 0xFFFFFFFF else None,
+                   lambda: [canon.scalar_hex(c[i]) for i in ([0, n - 1] if n else [])] if c.data_type is None or c.data_type.enum_value != 0xFFFFFFFF else None,
+                   lambda: [len(ch) for ch in list(c.data_chunks())]):
+            r = cl.call(fn)
+            ent.append(canon.norm(r[1]) if r[0] == "ok" else ("raised", r[1]))
+        out[c.path] = ent
     return out
 
 
